@@ -59,6 +59,45 @@ def directed_cases():
     return out
 
 
+def directed_family_cases():
+    """a parent and its child (type names in an order that is NOT alphabetical) leave the source in
+    one poll; the client trashes both, is restarted (or not), and one purge pass after the
+    retention finds both expired: the child must be handed over first"""
+    import copy
+    import random
+    import clicase
+    import srvcase
+    rng = random.Random(12)
+    out = []
+    DAY = clicase.DAY
+    for revnames in (1.0, 0.0):
+        base = None
+        while base is None or len(base["cfg"]["types"]) != 2 or len(base["cdm"]) != 2 \
+                or not base["cfg"]["types"][1]["fks"] or any(len(t["pkey"]) != 1 for t in base["cfg"]["types"]):
+            base = clicase.gen_case(rng, {"shape": "chain", "retention": 1, "ntypes": 2, "p_unmapped_type": 0.0,
+                                          "p_revnames": revnames})
+        tp, tc = base["cfg"]["types"]
+        row = lambda t, k: dict({a: 1 for a in t["attrs"] if a not in t["pkey"] and a not in t["fks"]},
+                                **{a: k for a in set(t["pkey"]) | set(t["fks"])})
+        for restart in (True, False):
+            for fk in ("disabled", "on_remove_event"):
+                tabs = [{tp["name"]: {1: row(tp, 1), 2: row(tp, 2)}, tc["name"]: {1: row(tc, 1), 2: row(tc, 2)}},
+                        {tp["name"]: {2: row(tp, 2)}, tc["name"]: {2: row(tc, 2)}}]
+                c = copy.deepcopy(base)
+                c["polls"] = [srvcase.to_remote_tables(c["cfg"], x) for x in tabs]
+                c["retention"], c["fkpolicy"], c["remediation"] = 1, fk, "disabled"
+                n = 2 + 4 + 2           # init-start/stop, four 'added', two 'removed'
+                c["ts_override"] = {str(i + 1): 10 * (i + 1) for i in range(n)}
+                its = [{"limit": n, "now": 200, "restart": False, "faults": False},
+                       {"limit": n, "now": 300, "restart": restart, "faults": False},
+                       {"limit": n, "now": 100 + DAY + 3600, "restart": False, "faults": False},
+                       {"limit": n, "now": 100 + DAY + 7200, "restart": False, "faults": False}]
+                c["sessions"] = {"iters": its, "outcomes": ["ok"] * 40}
+                c["sseed"], c["session_opts"] = 0, {}
+                out.append(c)
+    return out
+
+
 def switched_with_pending(case, ob):
     """retention goes from R>0 to 0 at a restart while the error queue holds events queued under R>0"""
     its = ob["sessions"]["iters"]
@@ -83,7 +122,8 @@ def run(ctx):
     def copts(rng):
         return {"retention": rng.choice([1, 1, 2]), "remediation": "disabled",
                 "shape": rng.choice(["flat", "chain", "chain2", "chain"]),
-                "fkpolicy": rng.choice(["on_remove_event", "disabled", "on_every_event"]), "maxpolls": 6}
+                "fkpolicy": rng.choice(["on_remove_event", "disabled", "on_every_event"]), "maxpolls": 6,
+                "p_revnames": 0.5}
 
     def sopts(rng):
         return {"p_fail": rng.choice([0.0, 0.2, 0.35]), "p_partial": 0.15, "clock": True,
@@ -95,7 +135,7 @@ def run(ctx):
             c["session_opts"]["p_restart"] = max(c["session_opts"]["p_restart"], 0.2)
         elif rng.random() < 0.15:
             c["retention"] = 0
-    directed = directed_cases()
+    directed = directed_cases() + directed_family_cases()
     cases = directed + cliprops.gen_cases(ctx, n, copts, sopts, tweak=tweak)
     for i, c in enumerate(cases):
         c["subsecond"] = i % 2 == 1       # half of the histories with bus timestamps off the whole second
@@ -124,7 +164,8 @@ def run(ctx):
     hist["purge_removals"] = sum(1 for (ob, g, e) in res for it in ob["iters"] for c in it["calls"]
                                  if c["h"].endswith("_removed") and not c["retry"])
     return {"evaluations": len(cases), "distinct_nontrivial": distinct,
-            "rule": "real-server buses with remove / re-add / modify-after-re-add patterns over flat and chained types, retention 1-2 days, "
+            "rule": "real-server buses with remove / re-add / modify-after-re-add patterns over flat and chained types (half of them with type names whose "
+                    "alphabetical order is not the declaration order), directed parent+child expiries in one purge pass after a restart, retention 1-2 days, "
                     "a virtual clock jumping 10 s .. 2 days per loop iteration, handler failures on every kind of call, restarts, retention "
                     "switched between R and 0 at restarts; observation-only oracle (13 clauses) on the handler log, the clock, the bus "
                     "timestamps and the eight caches + queue after every iteration",
